@@ -244,17 +244,39 @@ func (fx *FuncExec) typeFacts(v Val) {
 	}
 }
 
+// logWrite: some location of heap `key` (unknown which) is written.
 func (fx *FuncExec) logWrite(key string) {
 	if fx.writeLog != nil {
 		fx.writeLog[key] = true
 	}
 }
 
+// logWriteAt: heap `key` is written at index `target` (an object reference, array id or map
+// reference). Writes to objects allocated by this very execution of the code are not recorded:
+// the loop frame leaves everything allocated after loop entry arbitrary anyway.
+func (fx *FuncExec) logWriteAt(key, target string) {
+	if fx.writeTargets == nil {
+		fx.logWrite(key)
+		return
+	}
+	if fx.freshRefs[target] && fx.em.born[target] > fx.discN1 {
+		// allocated inside the loop body
+		if fx.writeTargets[key] == nil {
+			fx.writeTargets[key] = map[string]bool{}
+		}
+		return
+	}
+	if fx.writeTargets[key] == nil {
+		fx.writeTargets[key] = map[string]bool{}
+	}
+	fx.writeTargets[key][target] = true
+}
+
 func (fx *FuncExec) Store(st *State, l *Loc, v Val) {
 	if l.Kind == LGhost {
 		h := fx.heapTerm(st, l.GKey, fmt.Sprintf("(Array Int %s)", l.GSort), l.Owner)
 		st.heaps[l.GKey] = fx.em.DefineRaw(l.GKey, fmt.Sprintf("(Array Int %s)", l.GSort), sto(h, l.Ref, v.S))
-		fx.logWrite(l.GKey)
+		fx.logWriteAt(l.GKey, l.Ref)
 		return
 	}
 	if v.S == "" && v.Loc == nil && v.Fn == nil {
@@ -281,13 +303,13 @@ func (fx *FuncExec) Store(st *State, l *Loc, v Val) {
 		key, h := fx.fieldHeap(st, l.Owner, l.OwnerS, l.Field)
 		fs := fx.em.SortOf(l.T)
 		st.heaps[key] = fx.em.DefineRaw(key, arrSort(fs), sto(h, l.Ref, v.S))
-		fx.logWrite(key)
+		fx.logWriteAt(key, l.Ref)
 	case LElem:
 		key := elemKey(l.T)
 		es := fx.em.SortOf(l.T)
 		h := fx.heapTerm(st, key, arr2Sort(es), l.T)
 		st.heaps[key] = fx.em.DefineRaw(key, arr2Sort(es), sto(h, l.Arr, sto(sel(h, l.Arr), l.Idx, v.S)))
-		fx.logWrite(key)
+		fx.logWriteAt(key, l.Arr)
 	case LSub:
 		p := fx.Load(st, l.Parent)
 		pst := l.Parent.T.Underlying().(*types.Struct)
@@ -313,7 +335,7 @@ func (fx *FuncExec) Store(st *State, l *Loc, v Val) {
 	case LGhost:
 		h := fx.heapTerm(st, l.GKey, fmt.Sprintf("(Array Int %s)", l.GSort), l.Owner)
 		st.heaps[l.GKey] = fx.em.DefineRaw(l.GKey, fmt.Sprintf("(Array Int %s)", l.GSort), sto(h, l.Ref, v.S))
-		fx.logWrite(l.GKey)
+		fx.logWriteAt(l.GKey, l.Ref)
 	}
 }
 
@@ -376,7 +398,7 @@ func (fx *FuncExec) StoreThrough(st *State, p Val, v Val) {
 			fs := fx.em.SortOf(sty.Field(i).Type())
 			fv := fmt.Sprintf("(%s %s)", fx.em.fieldSel(v.Sort, sty, i), v.S)
 			st.heaps[key] = fx.em.DefineRaw(key, arrSort(fs), sto(h, p.S, fv))
-			fx.logWrite(key)
+			fx.logWriteAt(key, p.S)
 		}
 		return
 	}
@@ -387,7 +409,7 @@ func (fx *FuncExec) StoreThrough(st *State, p Val, v Val) {
 	key := ptrKey(el)
 	h := fx.heapTerm(st, key, arrSort(s), el)
 	st.heaps[key] = fx.em.DefineRaw(key, arrSort(s), sto(h, p.S, v.S))
-	fx.logWrite(key)
+	fx.logWriteAt(key, p.S)
 }
 
 // NewRef allocates a fresh object reference (distinct from everything allocated before).
